@@ -280,6 +280,8 @@ def histories(ctx, eng):
         for step in range(r.randint(5, 40)):
             op = r.choice(["validate-v", "validate-v", "validate", "export-v", "export", "expanded"])
             ver = r.choice(bounds + [round(b + 0.1, 2) for b in bounds[:4]] + [round(b - 0.04, 2) for b in bounds] + [round(b + 0.04, 2) for b in bounds])
+            if float(ver).is_integer() and r.random() < 0.5:
+                ver = int(ver)  # the same version given as an int (7 and 7.0 are one version, spelled "7" and "7.0")
             name, d = r.choice(docs)
             case = {"part": "history", "history": hi_, "step": step, "op": op, "version": ver, "schema": name, "previous": prev}
             res.count("history_steps")
@@ -311,6 +313,28 @@ def histories(ctx, eng):
                 res.violation("answer-depends-on-earlier-calls", case, got, want)
             prev = op
         res.count("histories")
+    # one version, two spellings: every integer-valued bound asked as a float and as an int on ONE Validator, in both orders
+    if ctx.shard == 0:
+        for b in [x for x in bounds if float(x).is_integer()]:
+            for order in ((float(b), int(b)), (int(b), float(b))):
+                v = Validator()
+                for i, ver in enumerate(order):
+                    for name, d in docs[:4] + [("map", None)]:
+                        case = {"part": "history", "history": "spellings", "step": i, "op": "export-v" if d is None else "validate-v", "version": repr(ver),
+                                "schema": name, "previous": repr(order[0]) if i else "start"}
+                        res.count("version_spelling_steps")
+                        try:
+                            if d is None:
+                                got = h(to_json(v.get_versioned_schema(ver, name)))
+                                want = h(to_json(Validator().get_versioned_schema(ver, name)))
+                            else:
+                                got = names(v.validate(copy.deepcopy(d), schema_name=name, version=ver))
+                                want = names(Validator().validate(copy.deepcopy(d), schema_name=name, version=ver))
+                        except Exception as ex:
+                            res.violation("history-call-raises", case, f"{type(ex).__name__}: {str(ex)[:200]}", None)
+                            continue
+                        if got != want:
+                            res.violation("answer-depends-on-earlier-calls", case, got, want)
 
 
 def run(ctx):
